@@ -14,6 +14,6 @@ Theorem success_sound_serial :
     eaten D e0 e1 wr /\ frame_wire FP_CMD pr wr /\ parse_cmd_response pr = ROk rs /\ r_status rs = SC_SUCCESS /\ r_cls rs = cls /\
     eaten D e1 (mb_env _ s1) bs /\ swire its bs /\ v = firstnN (r_second rs) (datas its) /\
     last_resp its = Some rsf /\ r_cls rsf = 1 /\ r_second rsf = pkt_tag p /\ r_status rsf = SC_SUCCESS /\
-    (ce = true -> nlen v = r_second rs).
+    nlen v = r_second rs.
 Proof. exact success_sound_serial_lemma. Qed.
 Print Assumptions success_sound_serial.
